@@ -1178,6 +1178,10 @@ impl Check for C04 {
         rep.bound("passes", json!(ps.iter().map(|p| json!({"name": p.name, "variants": p.vars.iter().map(|v| v.name()).collect::<Vec<_>>(), "alphabet": p.alphabet.iter().map(|o| o.name()).collect::<Vec<_>>(), "max_ops_after_create": p.max_ops, "maintenance": p.maints.iter().map(|m| m.name()).collect::<Vec<_>>(), "pairs": p.pairs, "rowid_compensation": p.comp})).collect::<Vec<_>>()));
         let mut w = Walker { eng: Engine::new(ctx), rep, case_idx: 0, capped: false };
         for pass in &ps {
+            // development aid: `--opt only=<pass name>` restricts the run to one pass
+            if ctx.opt("only").map(|o| o != pass.name).unwrap_or(false) {
+                continue;
+            }
             for &var in &pass.vars {
                 let mut ops = vec![];
                 w.dfs(pass, var, &mut ops, &BTreeSet::new(), false);
